@@ -4,6 +4,7 @@ import Uhppote.Props.C04
 import Uhppote.Gen.Driver
 import Uhppote.Proofs.Buffers
 import Uhppote.Props.C02
+import Uhppote.Gen.Discover
 /-! # C11 — discovery returns exactly the controllers that answered, despite network noise (partial)
 
 `Model.Events.discover` is `broadcast` + `GetDevices` as a function of the datagrams the driver
@@ -31,10 +32,10 @@ theorem C11_malformed_ignored (xs ys : List Bytes) (bad : Bytes) (h : entryOf F 
   simp [discover, List.filterMap_append, List.filterMap_cons, h]
 
 theorem C11_wrong_length_ignored (bad : Bytes) (h : bad.length ≠ 64) : entryOf F T B cfg R bad = none := by
-  simp [entryOf, h]
+  simp [entryOf, entryWith, h]
 
 theorem C11_undecodable_ignored (bad : Bytes) (h : ∀ r, unmarshal F T B R bad ≠ .ok r) : entryOf F T B cfg R bad = none := by
-  unfold entryOf
+  unfold entryOf entryWith
   split
   · rfl
   · split
@@ -44,17 +45,17 @@ theorem C11_undecodable_ignored (bad : Bytes) (h : ∀ r, unmarshal F T B R bad 
 /-- every decodable 64-byte reply yields exactly one entry, carrying the decoded fields -/
 theorem C11_valid_kept (d : Bytes) (r : List Val) (hl : d.length = 64) (hr : unmarshal F T B R d = .ok r) :
     ∃ e, entryOf F T B cfg R d = some e ∧ e.fields = r.drop 1 := by
-  simp [entryOf, hl, hr]
+  simp [entryOf, entryWith, entryCore, hl, hr]
 
 /-- the address is the decoded IP completed with the broadcast port, 60000 when none is configured -/
 theorem C11_port (d : Bytes) (e : Entry) (h : entryOf F T B cfg R d = some e) :
     e.address = "invalid" ∨ ∃ ip : String, e.address = ip ++ ":" ++ toString (if cfg.broadcastValid then cfg.broadcastPort else 60000) := by
-  unfold entryOf at h
+  unfold entryOf entryWith at h
   split at h
   · cases h
   · split at h
     · cases h
-      simp only
+      simp only [entryCore, addrOf]
       split
       · right
         rename_i a b c d _
@@ -69,11 +70,25 @@ theorem C11_name (d : Bytes) (e : Entry) (r : List Val) (n : Nat) (hl : d.length
     e.name = (match cfg.controllers.find? (·.serial == n) with
       | some c => if c.name = "" then "-" else c.name
       | none => "-") := by
-  simp [entryOf, hl, hr] at h
+  simp [entryOf, entryWith, hl, hr] at h
   subst h
+  simp only [entryCore, nameOf]
   have hs' : r[1]?.getD Val.none_ = .u32 n := by simpa using hs
   simp [hs']
   cases List.find? (fun x => x.serial == n) cfg.controllers <;> rfl
+
+/-- **the entry GetDevices builds, regenerated**: the function translated statement by statement from
+    uhppote/get_device.go (`Gen.Discover`: the port default and its override by the configured broadcast address, the
+    name looked up by the reply's serial number, the address from the reply's IP field, each field of the entry from
+    the reply field of the same name) is the hand-written `entryCore` these theorems are about, for every reply of
+    the shape the decoder returns (the eight fields of a get-device reply) -/
+theorem C11_entry_regenerated (r : List Val) (h : r.length = 8) : Gen.Discover.entry cfg r = entryCore cfg r := by
+  obtain ⟨a0, a1, a2, a3, a4, a5, a6, a7, rfl⟩ : ∃ a0 a1 a2 a3 a4 a5 a6 a7, r = [a0, a1, a2, a3, a4, a5, a6, a7] := by
+    rcases r with _ | ⟨a0, _ | ⟨a1, _ | ⟨a2, _ | ⟨a3, _ | ⟨a4, _ | ⟨a5, _ | ⟨a6, _ | ⟨a7, _ | ⟨a8, r⟩⟩⟩⟩⟩⟩⟩⟩⟩ <;> simp at h
+    exact ⟨a0, a1, a2, a3, a4, a5, a6, a7, rfl⟩
+  rfl
+
+theorem C11_port_regenerated : Gen.Discover.port cfg = (if cfg.broadcastValid then cfg.broadcastPort else 60000) := rfl
 
 /-- the number of entries never exceeds the number of datagrams received (nothing is invented) -/
 theorem C11_no_more_than_received (ds : List Bytes) : (discover F T B cfg R ds).length ≤ ds.length := by
@@ -97,7 +112,7 @@ theorem C11_entry_is_protocol_decoding (L : Layout) (h : Gen.Messages.all.lookup
     (cfg : Cfg) (d : Bytes) (e : Entry)
     (he : entryOf Gen.codecFacts C12.genTables C18.wireBounds cfg L d = some e) :
     ∃ r, e.fields = r.drop 1 ∧ Spec.Codec.acceptsUnmarshal L.leaves d (.ok r) = true := by
-  unfold entryOf at he
+  unfold entryOf entryWith at he
   split at he
   · cases he
   · split at he
